@@ -59,6 +59,7 @@ type GenomeCfg struct {
 	SingleOutMod bool // modules have exactly one output (required to activate multiply/max/min modules)
 	SensorsFirst bool // never place a sensor behind a neuron in the node list
 	EnabledOf10  int  // how many genes out of ten are enabled on average (0 = the default of seven)
+	ShuffleMods  bool // list the modules in a generated order (control-node ids and innovation numbers not ascending)
 }
 
 // genGenomeSpec is G-direct: a hand-built well-formed genome.
@@ -233,6 +234,9 @@ func drawGenomeSpec(t *rapid.T, cfg GenomeCfg) GenomeSpec {
 			}
 			ms.Outs = append(ms.Outs, cand[:nOuts]...)
 			s.Modules = append(s.Modules, ms)
+		}
+		if cfg.ShuffleMods && len(s.Modules) > 1 {
+			s.Modules = rapid.Permutation(s.Modules).Draw(t, "module order")
 		}
 	}
 	return s
